@@ -14,6 +14,7 @@ import (
 	"k8s.io/client-go/tools/record"
 	"k8s.io/client-go/util/workqueue"
 
+	vsapi "github.com/nginx/kubernetes-ingress/pkg/apis/configuration/v1"
 	k8s_nginx "github.com/nginx/kubernetes-ingress/pkg/client/clientset/versioned"
 	vsinformers "github.com/nginx/kubernetes-ingress/pkg/client/informers/externalversions"
 )
@@ -26,6 +27,8 @@ import (
 // harness feeds their indexers and calls the handlers the way a running informer does.  The two
 // handler values are built exactly as addHandlers builds the ones it registers.
 type VerifCtl struct {
+	q     *drainQueue
+	Calls []VerifCall
 	c                     *CmController
 	VS, Derived           cache.ResourceEventHandler
 	VSStore, DerivedStore cache.Indexer
@@ -46,34 +49,85 @@ func VerifNewCtl(ctx context.Context, rec record.EventRecorder, cmClient cm_clie
 	c.addHandlers(nsi)
 	c.informerGroup[""] = nsi
 	c.sync = SyncFnFor(c.recorder, cmClient, c.informerGroup)
-	return &VerifCtl{
-		c:            c,
-		VS:           &controllerpkg.QueuingEventHandler{Queue: c.queue},
-		Derived:      &controllerpkg.BlockingEventHandler{WorkFunc: certificateHandler(c.queue)},
-		VSStore:      nsi.vsSharedInformerFactory.K8s().V1().VirtualServers().Informer().GetIndexer(),
-		DerivedStore: nsi.cmSharedInformerFactory.Certmanager().V1().Certificates().Informer().GetIndexer(),
-	}
+	v := &VerifCtl{c: c}
+	v.instrument()
+	v.VS = &controllerpkg.QueuingEventHandler{Queue: c.queue}
+	v.Derived = &controllerpkg.BlockingEventHandler{WorkFunc: certificateHandler(c.queue)}
+	v.VSStore = nsi.vsSharedInformerFactory.K8s().V1().VirtualServers().Informer().GetIndexer()
+	v.DerivedStore = nsi.cmSharedInformerFactory.Certmanager().V1().Certificates().Informer().GetIndexer()
+	return v
 }
 
 func (v *VerifCtl) QueueLen() int { return v.c.queue.Len() }
 
-// ProcessNext: see externaldns.VerifCtl.ProcessNext.
-func (v *VerifCtl) ProcessNext(ctx context.Context) (key string, err error, ok bool) {
-	if v.c.queue.Len() == 0 {
-		return "", nil, false
-	}
-	k, shutdown := v.c.queue.Get()
-	if shutdown {
-		return "", nil, false
-	}
-	defer v.c.queue.Done(k)
-	err = v.c.processItem(ctx, k)
-	v.c.queue.Forget(k)
-	return fmt.Sprintf("%s/%s", k.Namespace, k.Name), err, true
+// VerifCall is one run of the real SyncFnFor function issued by the real processItem.
+type VerifCall struct {
+	Key string
+	Err error
 }
 
-func (v *VerifCtl) Requeue(namespace, name string) {
-	v.c.queue.Add(types.NamespacedName{Namespace: namespace, Name: name})
+// drainQueue is the real rate-limited work queue behind two small changes that make the real worker
+// loop usable synchronously: Get reports "shut down" when nothing is queued, so runWorker returns
+// instead of blocking; AddRateLimited re-adds at once instead of after the back-off delay, and parks an
+// item that failed maxFails times in a row until the harness releases it (= the delay has passed).
+// Add / Done / Forget and the dirty / processing bookkeeping are the real queue's.
+type drainQueue struct {
+	workqueue.TypedRateLimitingInterface[types.NamespacedName]
+	fails  map[types.NamespacedName]int
+	parked []types.NamespacedName
 }
 
-func (v *VerifCtl) Shutdown() { v.c.queue.ShutDown() }
+const maxFails = 6
+
+func (q *drainQueue) Get() (types.NamespacedName, bool) {
+	if q.TypedRateLimitingInterface.Len() == 0 {
+		return types.NamespacedName{}, true
+	}
+	return q.TypedRateLimitingInterface.Get()
+}
+
+func (q *drainQueue) AddRateLimited(item types.NamespacedName) {
+	q.fails[item]++
+	if q.fails[item] >= maxFails {
+		q.parked = append(q.parked, item)
+		return
+	}
+	q.TypedRateLimitingInterface.Add(item)
+}
+
+func (q *drainQueue) Forget(item types.NamespacedName) {
+	delete(q.fails, item)
+	q.TypedRateLimitingInterface.Forget(item)
+}
+
+// instrument puts the drain queue in front of the controller's queue and records every call of the
+// reconciliation function.
+func (v *VerifCtl) instrument() {
+	v.q = &drainQueue{TypedRateLimitingInterface: v.c.queue, fails: map[types.NamespacedName]int{}}
+	v.c.queue = v.q
+	real := v.c.sync
+	v.c.sync = func(ctx context.Context, vs *vsapi.VirtualServer) error {
+		err := real(ctx, vs)
+		v.Calls = append(v.Calls, VerifCall{Key: fmt.Sprintf("%s/%s", vs.Namespace, vs.Name), Err: err})
+		return err
+	}
+}
+
+// RunWorker runs the production worker loop (runWorker: Get, processItem, AddRateLimited / Forget,
+// Done) until nothing is queued, and returns the reconciliation calls it made.
+func (v *VerifCtl) RunWorker(ctx context.Context) []VerifCall {
+	v.Calls = nil
+	v.c.runWorker(ctx)
+	return v.Calls
+}
+
+// ReleaseDelayed lets the back-off delay of parked items pass.
+func (v *VerifCtl) ReleaseDelayed() {
+	for _, it := range v.q.parked {
+		v.q.fails[it] = 0
+		v.q.TypedRateLimitingInterface.Add(it)
+	}
+	v.q.parked = nil
+}
+
+func (v *VerifCtl) Shutdown() { v.q.TypedRateLimitingInterface.ShutDown() }
